@@ -284,6 +284,25 @@ macro_rules! uint_inv_cells {
         let w = L;
         let t: u8 = $tier;
         let bits = 64 * L as u64;
+        // ---- signed multiplication / sign handling (need concrete widths for the widened outputs)
+        cell!($reg, t, "Int::split_mul", w, "", Gen::Any2, |s: &Slots| { bb(u::<L>(&s.a[0]).as_int().split_mul(&u::<L>(&s.a[1]).as_int())); });
+        cell!($reg, t, "Int::widening_mul", w, "", Gen::Any2, |s: &Slots| { bb(u::<L>(&s.a[0]).as_int().widening_mul(&u::<L>(&s.a[1]).as_int())); });
+        cell!($reg, t, "Int::widening_square", w, "", Gen::Any1, |s: &Slots| { bb(u::<L>(&s.a[0]).as_int().widening_square()); });
+        cell!($reg, t, "Int::checked_square", w, "", Gen::Any1, |s: &Slots| { bb((u::<L>(&s.a[0]).as_int().checked_square(), u::<L>(&s.a[0]).as_int().wrapping_square(), u::<L>(&s.a[0]).as_int().saturating_square())); });
+        cell!($reg, t, "Int::split_mul_uint", w, "", Gen::Any2, |s: &Slots| { bb(u::<L>(&s.a[0]).as_int().split_mul_uint(&u::<L>(&s.a[1]))); });
+        cell!($reg, t, "Int::widening_mul_uint", w, "", Gen::Any2, |s: &Slots| { bb(u::<L>(&s.a[0]).as_int().widening_mul_uint(&u::<L>(&s.a[1]))); });
+        cell!($reg, t, "Int::checked_mul_uint_right", w, "", Gen::Any2, |s: &Slots| { bb(u::<L>(&s.a[0]).as_int().checked_mul_uint_right(&u::<L>(&s.a[1]))); });
+        cell!($reg, t, "Int::overflowing_add", w, "", Gen::Any2, |s: &Slots| { bb((u::<L>(&s.a[0]).as_int().overflowing_add(&u::<L>(&s.a[1]).as_int()), u::<L>(&s.a[0]).as_int().wrapping_add(&u::<L>(&s.a[1]).as_int()))); });
+        cell!($reg, t, "Int::overflowing_neg", w, "", Gen::Any1, |s: &Slots| { bb((u::<L>(&s.a[0]).as_int().overflowing_neg(), u::<L>(&s.a[0]).as_int().wrapping_neg())); });
+        cell!($reg, t, "Int::sign_queries", w, "", Gen::Any1, |s: &Slots| { let x = u::<L>(&s.a[0]).as_int(); bb((x.is_negative(), x.is_positive(), x.abs())); });
+        cell!($reg, t, "Int::Ord::cmp", w, "", Gen::Any2, |s: &Slots| { let (x, y) = (u::<L>(&s.a[0]).as_int(), u::<L>(&s.a[1]).as_int()); bb((x.cmp(&y), x == y, x < y)); });
+        cell!($reg, t, "Int::shl", w, "", Gen::Scalar(shifts(bits, false)), |s: &Slots| { bb(u::<L>(&s.a[0]).as_int().shl(s.s[0] as u32)); });
+        cell!($reg, t, "Int::overflowing_shl", w, "", Gen::Scalar(shifts(bits, true)), |s: &Slots| { bb((u::<L>(&s.a[0]).as_int().overflowing_shl(s.s[0] as u32), u::<L>(&s.a[0]).as_int().wrapping_shl(s.s[0] as u32))); });
+        cell!($reg, t, "Int::shr", w, "", Gen::Scalar(shifts(bits, false)), |s: &Slots| { bb((u::<L>(&s.a[0]).as_int().shr(s.s[0] as u32), u::<L>(&s.a[0]).as_int().wrapping_shr(s.s[0] as u32))); });
+        cell!($reg, t, "Int::conditional_select", w, "", Gen::Any2, |s: &Slots| {
+            let (x, y): (Int<L>, Int<L>) = (u::<L>(&s.a[0]).as_int(), u::<L>(&s.a[1]).as_int());
+            bb(Int::<L>::conditional_select(&x, &y, x.ct_lt(&y)));
+        });
         cell!($reg, t, "Uint::inv_mod2k", w, "", Gen::Scalar(vec![0, 1, 63, 64, 65, bits - 1, bits]), |s: &Slots| {
             let mut x = u::<L>(&s.a[0]);
             x = x.bitor(&Uint::<L>::ONE);
